@@ -3,6 +3,7 @@
     interleaving of it on which the hypotheses of every theorem of Properties/C15.v hold *)
 From Coq Require Import List ZArith Arith.
 From ApiFu Require Import Idle.IdleModel Idle.IdleSpec Idle.IdleProofs Idle.IdleLive Idle.IdleHist Idle.IdleCheck.
+From ApiFu Require Idle.IdleFair.
 Import ListNotations.
 Open Scope Z_scope.
 
@@ -101,3 +102,33 @@ Proof.
   assert (R : exists s, run current ex_prog init ex_trace = Some s) by (vm_compute; eexists; reflexivity).
   destruct R as [s R]. exact (terminates ex_prog ex_wf ex_bf current ex_trace s R).
 Qed.
+
+(** hypotheses of C15_idle_round_fair_unchained: a request without chaining and one of its rounds *)
+Definition ex2_prog : prog := mk_prog [mkItem KGo None false (ROk 1%Z); mkItem (KBatch 0) None false (ROk 2%Z)].
+Definition ex2_pre : list label := [LCreate 0; LCreate 1].
+Definition ex2_mid : list label := [LFlush 0 [1]; LFlushDone; LFinish 0; LArrive 0; LRecv 0].
+
+Example ex2_no_chaining : IdleFair.no_chaining ex2_prog.
+Proof.
+  intros w it L. destruct w as [|[|w]]; simpl in L.
+  - inversion L; reflexivity.
+  - inversion L; reflexivity.
+  - unfold lookup in L. simpl in L. destruct w; discriminate.
+Qed.
+
+Example ex2_round_runs :
+  wf_items ex2_prog = true /\
+  match run current ex2_prog init (ex2_pre ++ LIdleEnter :: ex2_mid ++ [LIdleExit]) with
+  | Some s => Some (st_phase s) | None => None end = Some PPoll /\
+  deliveries ex2_mid = [1; 0].
+Proof. vm_compute. repeat split; reflexivity. Qed.
+
+(** C15_idle_rounds_bounded on the main example: two idle rounds, five promise items *)
+Example ex_rounds_bounded_instance :
+  IdleFair.exits ex_trace = 2 /\ length (filter (promise_item ex_prog) (ids ex_prog)) = 5.
+Proof. vm_compute. split; reflexivity. Qed.
+
+(** the handler record of the main example as a C02 scheduler: round 0 fills 1, 2, 0; round 1 fills 3, 4 *)
+Example ex_sched_agrees :
+  IdleFair.sched_of_rounds [[1; 2; 0]; [3; 4]] 1 [(3, 0%N); (4, 0%N)] = [3; 4].
+Proof. reflexivity. Qed.
